@@ -78,6 +78,7 @@ type scenCfg struct {
 	Sentinel  bool   `json:"sentinel"` // a never-ready message keeps the poller switched on for the whole history
 	Name      string `json:"name"`
 	Restarts  bool   `json:"restarts,omitempty"` // the generated script makes Run return and be re-entered (extension X4)
+	ChainID   uint16 `json:"chainid,omitempty"`  // extension X8: the watcher's chain id (dev mode; 0 = BSC / Ethereum as above)
 }
 
 const sentinelTx = 900001
@@ -346,6 +347,9 @@ func startScen(cfg scenCfg) (*scen, error) {
 	if cfg.Finalized {
 		chain = vaa.ChainIDEthereum
 		dev = false
+	}
+	if cfg.ChainID != 0 && !cfg.Finalized {
+		chain = vaa.ChainID(cfg.ChainID)
 	}
 	poll := cfg.PollMs
 	comp := readiness.Component(fmt.Sprintf("verif-c10-%d", atomic.AddUint64(&scenCounter, 1)))
